@@ -105,6 +105,12 @@ type PktSpec struct {
 	FlipBit *int `json:"flip_bit,omitempty"`
 	// Key overrides the client's key for this packet.
 	Key []byte `json:"key,omitempty"`
+	// SeqWide (real clients only): a sequence number beyond the one-octet wire field,
+	// which the library must refuse to encode.
+	SeqWide uint16 `json:"seq_wide,omitempty"`
+	// BodyFirst (real clients only): build the packet with the body option before the
+	// header option, which leaves the header's length field stale until it is written.
+	BodyFirst bool `json:"body_first,omitempty"`
 }
 
 // BodySpec is a value of one of the seven bodies in a neutral form, or raw bytes.
